@@ -32,6 +32,8 @@ use vcommon::*;
 enum S {
     Null,
     Bool,
+    /// boolean column held as a *sliced* BooleanArray (bit offset 3): same Avro type, other physical layout
+    BoolSliced,
     Int,
     Long,
     Float,
@@ -72,6 +74,7 @@ fn show_s(s: &S) -> String {
     match s {
         S::Null => "n".into(),
         S::Bool => "b".into(),
+        S::BoolSliced => "B".into(),
         S::Int => "i".into(),
         S::Long => "l".into(),
         S::Float => "f".into(),
@@ -175,6 +178,7 @@ impl<'a> P<'a> {
         match self.next() {
             b'n' => S::Null,
             b'b' => S::Bool,
+            b'B' => S::BoolSliced,
             b'i' => S::Int,
             b'l' => S::Long,
             b'f' => S::Float,
@@ -276,7 +280,7 @@ fn show_rows(rows: &[Vec<V>]) -> String {
 fn avro_json(s: &S, k: &mut usize) -> String {
     match s {
         S::Null => "\"null\"".into(),
-        S::Bool => "\"boolean\"".into(),
+        S::Bool | S::BoolSliced => "\"boolean\"".into(),
         S::Int => "\"int\"".into(),
         S::Long => "\"long\"".into(),
         S::Float => "\"float\"".into(),
@@ -309,6 +313,8 @@ fn field_of(name: &str, s: &S) -> Field {
     match s {
         S::Opt(_, i) => Field::new(name, dtype(i), true),
         S::Null => Field::new(name, DataType::Null, true),
+        // a union with a null branch has logical nulls: Arrow requires the field to be nullable
+        S::Union(b) if b.contains(&S::Null) => Field::new(name, dtype(s), true),
         _ => Field::new(name, dtype(s), false),
     }
 }
@@ -318,7 +324,7 @@ fn union_fields(b: &[S]) -> UnionFields {
 fn dtype(s: &S) -> DataType {
     match s {
         S::Null => DataType::Null,
-        S::Bool => DataType::Boolean,
+        S::Bool | S::BoolSliced => DataType::Boolean,
         S::Int => DataType::Int32,
         S::Long => DataType::Int64,
         S::Float => DataType::Float32,
@@ -337,7 +343,7 @@ fn dtype(s: &S) -> DataType {
 fn default_v(s: &S) -> V {
     match s {
         S::Null => V::Null,
-        S::Bool => V::Bool(false),
+        S::Bool | S::BoolSliced => V::Bool(false),
         S::Int => V::Int(0),
         S::Long => V::Long(0),
         S::Float => V::Float(0),
@@ -358,6 +364,11 @@ fn build(s: &S, vals: &[V]) -> ArrayRef {
     match s {
         S::Null => Arc::new(NullArray::new(vals.len())),
         S::Bool => Arc::new(BooleanArray::from(vals.iter().map(|v| matches!(v, V::Bool(true))).collect::<Vec<_>>())),
+        S::BoolSliced => {
+            let mut padded = vec![true, false, true];
+            padded.extend(vals.iter().map(|v| matches!(v, V::Bool(true))));
+            Arc::new(BooleanArray::from(padded).slice(3, vals.len()))
+        }
         S::Int => Arc::new(Int32Array::from(vals.iter().map(|v| if let V::Int(i) = v { *i } else { panic!("int") }).collect::<Vec<_>>())),
         S::Long => Arc::new(Int64Array::from(vals.iter().map(|v| if let V::Long(i) = v { *i } else { panic!("long") }).collect::<Vec<_>>())),
         S::Float => Arc::new(Float32Array::from(vals.iter().map(|v| if let V::Float(i) = v { f32::from_bits(*i) } else { panic!("float") }).collect::<Vec<_>>())),
@@ -472,7 +483,7 @@ fn extract(s: &S, arr: &dyn Array, i: usize) -> Result<V, String> {
             if matches!(arr.data_type(), DataType::Null) { V::Null } else { return Err(format!("null: {:?}", arr.data_type())) }
         }
         _ if arr.is_null(i) => return Err("unexpected null".into()),
-        S::Bool => V::Bool(arr.as_boolean_opt().ok_or("bool")?.value(i)),
+        S::Bool | S::BoolSliced => V::Bool(arr.as_boolean_opt().ok_or("bool")?.value(i)),
         S::Int => V::Int(arr.as_primitive_opt::<Int32Type>().ok_or("int")?.value(i)),
         S::Long => V::Long(arr.as_primitive_opt::<Int64Type>().ok_or("long")?.value(i)),
         S::Float => V::Float(arr.as_primitive_opt::<Float32Type>().ok_or("float")?.value(i).to_bits()),
@@ -617,6 +628,17 @@ fn rabin_hex(fp: &Fingerprint) -> String {
     }
 }
 
+fn unslice(s: &S) -> S {
+    match s {
+        S::BoolSliced => S::Bool,
+        S::Opt(n, i) => S::Opt(*n, Box::new(unslice(i))),
+        S::Arr(i) => S::Arr(Box::new(unslice(i))),
+        S::Map(i) => S::Map(Box::new(unslice(i))),
+        S::Union(b) => S::Union(b.iter().map(unslice).collect()),
+        S::Rec(b) => S::Rec(b.iter().map(unslice).collect()),
+        x => x.clone(),
+    }
+}
 /// Avro JSON schema → schema tree (names, docs and logical types ignored)
 fn s_of_json(j: &serde_json::Value) -> Option<S> {
     use serde_json::Value as J;
@@ -674,11 +696,39 @@ fn ocf_header_schema(bytes: &[u8]) -> Option<String> {
     None
 }
 
+/// structural tags of the recorded findings, computed from the case line alone (so they are
+/// the same in gen and replay mode):
+///  * `kf:avro-ocf-header-schema-regenerated` — OCF write whose user-supplied `avro.schema` JSON differs
+///    from the one `AvroOcfFormat::start_stream` regenerates from the Arrow schema (null-second unions, enums);
+///    such a file may also make `Reader::read` spin: `kf:avro-reader-trailing-block-bytes-hang`
+///  * `kf:avro-union-counts-not-reset` — a union column read in more than one batch (rows > batch size 7)
+fn kf_tags(line: &str) -> String {
+    let t: Vec<&str> = line.split(' ').collect();
+    if t.len() < 4 || (t[1] != "ocf" && t[1] != "ocfz") {
+        return String::new();
+    }
+    let si = if t[1] == "ocfz" { 3 } else { 2 };
+    let top = parse_s(t[si]);
+    let regenerated = has(&top, &|x: &S| matches!(x, S::Opt(false, _) | S::Enum(_)));
+    let rows: usize = t[si + 1].split('/').map(|b| if b == "-" { 0 } else { b.split('|').count() }).sum();
+    let mut out = String::new();
+    if regenerated {
+        out.push_str(" kf:avro-ocf-header-schema-regenerated kf:avro-reader-trailing-block-bytes-hang");
+    } else if has(&top, &|x: &S| matches!(x, S::Union(_))) && rows > OCF_BATCH_SIZE {
+        out.push_str(" kf:avro-union-counts-not-reset");
+    }
+    out
+}
+const OCF_BATCH_SIZE: usize = 7;
+/// how many mis-headed files the harness still tries to read (each may cost a watchdog timeout
+/// and leave a spinning thread behind)
+static HANG_PROBES: std::sync::atomic::AtomicUsize = std::sync::atomic::AtomicUsize::new(0);
+const MAX_HANG_PROBES: usize = 3;
+
 fn run_case(line: &str, sink: &mut Sink, tags: &str) -> String {
     let t: Vec<&str> = line.split(' ').collect();
     assert_eq!(t[0], "C17");
-    let mut oracle: Vec<String> = vec![];
-    let mut finding = "";
+    let mut oracle: Vec<(String, &str)> = vec![];
     let ans = guarded(|| match t[1] {
         "avro" => {
             let top = top_of(&parse_s(t[2]));
@@ -711,15 +761,15 @@ fn run_case(line: &str, sink: &mut Sink, tags: &str) -> String {
             match soe_decode(&json, &bytes) {
                 Ok((batches, fp)) => {
                     if rabin_hex(&fp) != t[2] {
-                        oracle.push(format!("fingerprint {} != case {}", rabin_hex(&fp), t[2]));
+                        oracle.push((format!("fingerprint {} != case {}", rabin_hex(&fp), t[2]), ""));
                     }
                     match rows_of_batches(&top, &batches) {
                         Ok(back) if back == rows => {}
-                        Ok(back) => oracle.push(format!("soe round trip: read {}", show_rows(&back))),
-                        Err(e) => oracle.push(format!("soe round trip: extract {e}")),
+                        Ok(back) => oracle.push((format!("soe round trip: read {}", show_rows(&back)), "")),
+                        Err(e) => oracle.push((format!("soe round trip: extract {e}"), "")),
                     }
                 }
-                Err(e) => oracle.push(format!("soe round trip: reader {e}")),
+                Err(e) => oracle.push((format!("soe round trip: reader {e}"), "")),
             }
             hex(&bytes)
         }
@@ -745,10 +795,10 @@ fn run_case(line: &str, sink: &mut Sink, tags: &str) -> String {
             drop(w);
             let bytes = shared.0.borrow().clone();
             if &bytes[..4] != b"Obj\x01" {
-                oracle.push("magic".into());
+                oracle.push(("magic".into(), ""));
             }
             if &bytes[header_len - 16..header_len] != &sync[..] {
-                oracle.push("header sync".into());
+                oracle.push(("header sync".into(), ""));
             }
             // read back
             let all_rows: Vec<Vec<V>> = batches_rows.iter().flatten().cloned().collect();
@@ -756,40 +806,56 @@ fn run_case(line: &str, sink: &mut Sink, tags: &str) -> String {
             // decodes the body under another schema (garbage, an error, or a non-terminating
             // `Reader::read` when a block is left with trailing bytes) — report and skip the read
             let header_s = ocf_header_schema(&bytes).and_then(|j| serde_json::from_str::<serde_json::Value>(&j).ok()).and_then(|j| s_of_json(&j));
-            let header_ok = header_s == Some(S::Rec(top.clone()));
+            let header_ok = header_s == Some(unslice(&S::Rec(top.clone())));
             if !header_ok {
-                finding = " finding:ocf-header-schema";
-                oracle.push(format!("ocf header schema {} differs from the writer schema the body is encoded with", header_s.as_ref().map(show_s).unwrap_or("?".into())));
+                oracle.push((format!("ocf header schema {} differs from the writer schema the body is encoded with", header_s.as_ref().map(show_s).unwrap_or("?".into())), "finding:ocf-header-schema"));
+                // a few of these files are still handed to the reader, under a watchdog: the body is decoded under
+                // the wrong schema and a block left with trailing bytes makes `Reader::read` spin forever
+                if HANG_PROBES.fetch_add(1, std::sync::atomic::Ordering::SeqCst) < MAX_HANG_PROBES {
+                    let (tx, rx) = std::sync::mpsc::channel();
+                    let data = bytes.clone();
+                    std::thread::spawn(move || {
+                        let r = std::panic::catch_unwind(|| match ReaderBuilder::new().with_batch_size(OCF_BATCH_SIZE).build(std::io::Cursor::new(data)) {
+                            Ok(r) => r.map(|b| b.map(|x| x.num_rows())).collect::<Result<Vec<_>, _>>().map(|v| v.iter().sum::<usize>()).map_err(|_| ()),
+                            Err(_) => Err(()),
+                        });
+                        let _ = tx.send(r);
+                    });
+                    match rx.recv_timeout(std::time::Duration::from_secs(3)) {
+                        Ok(_) => {}
+                        Err(_) => oracle.push(("HANG: Reader::read does not terminate on the file the OCF writer produced (block with trailing bytes)".into(), "finding:reader-hang")),
+                    }
+                }
             }
-            if header_ok { match ReaderBuilder::new().with_batch_size(7).build(std::io::Cursor::new(bytes.clone())) {
-                Ok(r) => {
-                    let mut bs = vec![];
-                    let mut failed = false;
-                    for b in r {
-                        match b {
-                            Ok(b) => bs.push(b),
-                            Err(e) => {
-                                // does the same file read back correctly as ONE batch?
-                                let one = ReaderBuilder::new().with_batch_size(1 << 20).build(std::io::Cursor::new(bytes.clone())).ok().and_then(|r| r.collect::<Result<Vec<_>, _>>().ok()).and_then(|bs| rows_of_batches(&top, &bs).ok());
-                                if one.as_ref() == Some(&all_rows) && has(&S::Rec(top.clone()), &|x: &S| matches!(x, S::Union(_))) {
-                                    finding = " finding:union-multibatch";
+            if header_ok {
+                match ReaderBuilder::new().with_batch_size(OCF_BATCH_SIZE).build(std::io::Cursor::new(bytes.clone())) {
+                    Ok(r) => {
+                        let mut bs = vec![];
+                        let mut failed = false;
+                        for b in r {
+                            match b {
+                                Ok(b) => bs.push(b),
+                                Err(e) => {
+                                    // does the same file read back correctly as ONE batch?
+                                    let one = ReaderBuilder::new().with_batch_size(1 << 20).build(std::io::Cursor::new(bytes.clone())).ok().and_then(|r| r.collect::<Result<Vec<_>, _>>().ok()).and_then(|bs| rows_of_batches(&top, &bs).ok());
+                                    let multibatch = one.as_ref() == Some(&all_rows) && has(&S::Rec(top.clone()), &|x: &S| matches!(x, S::Union(_)));
+                                    oracle.push((format!("ocf round trip (batch_size {}, {} rows): reader {}; single-batch read ok={}", OCF_BATCH_SIZE, all_rows.len(), err_class(e), one.as_ref() == Some(&all_rows)), if multibatch { "finding:union-multibatch" } else { "" }));
+                                    failed = true;
+                                    break;
                                 }
-                                oracle.push(format!("ocf round trip (batch_size 7, {} rows): reader {}; single-batch read ok={}", all_rows.len(), err_class(e), one.as_ref() == Some(&all_rows)));
-                                failed = true;
-                                break;
+                            }
+                        }
+                        if !failed {
+                            match rows_of_batches(&top, &bs) {
+                                Ok(back) if back == all_rows => {}
+                                Ok(back) => oracle.push((format!("ocf round trip: read {}", show_rows(&back)), "")),
+                                Err(e) => oracle.push((format!("ocf round trip: extract {e}"), "")),
                             }
                         }
                     }
-                    if !failed {
-                        match rows_of_batches(&top, &bs) {
-                            Ok(back) if back == all_rows => {}
-                            Ok(back) => oracle.push(format!("ocf round trip: read {}", show_rows(&back))),
-                            Err(e) => oracle.push(format!("ocf round trip: extract {e}")),
-                        }
-                    }
+                    Err(e) => oracle.push((format!("ocf round trip: open {}", err_class(e)), "")),
                 }
-                Err(e) => oracle.push(format!("ocf round trip: open {}", err_class(e))),
-            } }
+            }
             if t[1] == "ocfz" {
                 return format!("rows={}", all_rows.len());
             }
@@ -807,7 +873,7 @@ fn run_case(line: &str, sink: &mut Sink, tags: &str) -> String {
                     return "ERR:framing".into();
                 }
                 if body[i..i + 16] != sync {
-                    oracle.push("block sync".into());
+                    oracle.push(("block sync".into(), ""));
                 }
                 body[i..i + 16].fill(0);
                 i += 16;
@@ -848,7 +914,7 @@ fn run_case(line: &str, sink: &mut Sink, tags: &str) -> String {
         _ => "bad-op".into(),
     });
     for o in oracle {
-        sink.oracle_failure(line.to_string(), o, &format!("{}{}", tags, finding));
+        sink.oracle_failure(line.to_string(), o.0, &format!("{}{} {}", tags, kf_tags(line), o.1));
     }
     ans
 }
@@ -857,7 +923,9 @@ fn run_case(line: &str, sink: &mut Sink, tags: &str) -> String {
 fn gen_schema(rng: &mut Rng, depth: usize, allow_opt: bool, allow_union: bool) -> S {
     let r = rng.below(if depth == 0 { 10 } else { 17 });
     match r {
-        0 => S::Bool,
+        0 => {
+            if rng.chance(1, 3) { S::BoolSliced } else { S::Bool }
+        }
         1 => S::Int,
         2 => S::Long,
         3 => S::Float,
@@ -916,7 +984,7 @@ fn gen_value(rng: &mut Rng, s: &S, budget: &mut i64) -> V {
     *budget -= 1;
     match s {
         S::Null => V::Null,
-        S::Bool => V::Bool(rng.bool()),
+        S::Bool | S::BoolSliced => V::Bool(rng.bool()),
         S::Int => V::Int(rng.pick_or(&I32B, i32::MIN as i64, i32::MAX as i64) as i32),
         S::Long => V::Long(if rng.chance(1, 2) { *rng.pick(&I64B) } else { rng.next_u64() as i64 >> rng.below(64) }),
         S::Float => V::Float(if rng.chance(1, 4) { *rng.pick(&[0u32, 0x8000_0000, 0x7f80_0000, 0xff80_0000, 0x7fc0_0001, 1, 0x3f80_0000]) } else { rng.next_u64() as u32 }),
@@ -1076,6 +1144,7 @@ fn main() {
             let mut tries = 0;
             loop {
                 let (line, tags) = gen_case(&mut rng);
+                let tags = format!("{}{}", tags, kf_tags(&line));
                 if std::env::var("VERIF_TRACE").is_ok() {
                     eprintln!("{}", line);
                 }
